@@ -4,6 +4,7 @@
 From Coq Require Import List String NArith ZArith Bool Permutation.
 Import ListNotations.
 From Solstat Require Import Res Dir DirSpec DirCases DirProof DirCasesProof DirExample.
+From Solstat Require Effects EffectsProof.
 Local Open Scope string_scope.
 Local Open Scope list_scope.
 
@@ -134,3 +135,12 @@ Example ex_d3_old_merge_loses_findings :
   map_merge N.eq_dec [(0%N, [("A.sol", [1%Z])])] [(0%N, [("B.sol", [4%Z])])] = [(0%N, [("A.sol", [1%Z]); ("B.sol", [4%Z])])].
 Proof. vm_compute. split; reflexivity. Qed.
 Print Assumptions ex_d3_old_merge_loses_findings.
+
+(* ---- tie to the source.  The theorems above are about model/Dir.v, whose analyze_dir reads nothing but the listing of
+   each directory, the directory flag of each entry and the text of each eligible file.  The inventory of file-system
+   calls regenerated from /repo/src on every run (gen/Effects.v) is exactly that: read_dir, is_dir, read_to_string once in
+   each of the three analyze_dir (and the two reads of Opts::new).  A walker that starts consulting anything else
+   (canonical paths, metadata, entry types, the environment) is no longer the function the union theorem is about. *)
+Theorem walker_reads_are_the_modelled_ones : Effects.effects_read = EffectsProof.expected_read.
+Proof. exact (proj1 (proj2 EffectsProof.effects_match_model_lemma)). Qed.
+Print Assumptions walker_reads_are_the_modelled_ones.
